@@ -56,3 +56,14 @@ prop(
     level_note="Trusted: Lean kernel; Rust's f64 FromStr (the lab passes the parsed bits; only float comparison is modelled); slice::sort_by returns a sorted permutation for a total preorder and may panic otherwise (observed: F8). Tree-level sibling order is covered by the tree lab.",
     assumptions=["f64 parsing is Rust's", "slice::sort_by contract"],
 )
+
+REG_TRUST = ["the registry lab registers entries through divan::__private exactly like the macro expansion does (leaked statics pushed into BENCH_ENTRIES / GROUP_ENTRIES) and drives the real Divan front end in a child process; the attribute macros' own expansion is exercised by the generated-crate lab only"]
+
+prop(
+    "C14",
+    ["DivanModel.Props.C14"],
+    [lab("reg", 1500, 40000)],
+    level_text="Theorems about the Lean model of the front end (Model/Prog.lean: tree construction, retain, the terse walk and the run walk with per-level option resolution): the terse listing equals, line for line, the cases the test walk executes for every tree, filter set and ignore flag; listing actions execute nothing. Tied to the code by the registry lab (random abstract programs x filters x ignore flags x actions incl. Divan::list_benches, run through the real front end in a child process; exact stdout and invocation log compared with the model; the spec 'terse lines = cases a run executes, listing calls nothing' evaluated on the implementation's own output).",
+    level_note="Trusted: Lean kernel; registry lab (child-process registration through divan::__private), small regex grammar of the generator re-implemented in Lean (literal, '.', anchors, alternation); clap parsing is exercised, not modelled.",
+    trusted=REG_TRUST,
+)
